@@ -52,10 +52,11 @@ Definition dec_prim (p : prim) (d : list N) : option (pval * list N) :=
   | PLV p =>
       if (List.length d <? p)%nat then None
       else
-        let len := N.to_nat (le_value (firstn p d)) in
+        (* the length is compared as a binary number: a 4-byte prefix can announce 2^32-1 bytes *)
+        let lenN := le_value (firstn p d) in
         let d' := skipn p d in
-        if (List.length d' <? len)%nat then None
-        else Some (VB (firstn len d'), skipn len d')
+        if N.of_nat (List.length d') <? lenN then None
+        else let len := N.to_nat lenN in Some (VB (firstn len d'), skipn len d')
   end.
 
 (* a row: the flat fields of one list element *)
